@@ -11,7 +11,7 @@ def sh(cmd, cwd, check=True):
     return p
 # ---- repo: cherry-pick the branch's own commits (oldest first)
 base = sh(["git", "merge-base", "main", br], "/repo").stdout.strip()
-commits = sh(["git", "log", "--reverse", "--format=%H %s", base + ".." + br], "/repo").stdout.strip().splitlines()
+commits = sh(["git", "log", "--reverse", "--no-merges", "--format=%H %s", base + ".." + br], "/repo").stdout.strip().splitlines()
 mainlog = sh(["git", "log", "--format=%s", "main"], "/repo").stdout.splitlines()
 hookhashes = []
 for c in commits:
@@ -33,7 +33,11 @@ def load(ref, path):
     p = sh(["git", "show", ref + ":" + path], "/verif", check=False)
     return json.loads(p.stdout) if p.returncode == 0 else None
 kf_ours, kf_theirs = load("HEAD", "known_findings.json"), load(br, "known_findings.json")
+if sh(["git", "status", "--porcelain", "--untracked-files=no"], "/verif").stdout.strip():
+    print("verif: working tree not clean - commit first"); sys.exit(1)
 p = sh(["git", "merge", "--no-commit", "--no-ff", br], "/verif", check=False)
+if not os.path.exists("/verif/.git/MERGE_HEAD"):
+    print("verif: merge did not start:\n", p.stdout[-600:], p.stderr[-600:]); sys.exit(1)
 for f in ["MANIFEST.json", "known_findings.json", "tools/hook_commits.json", "evidence/C17.json"]:
     sh(["git", "checkout", "HEAD", "--", f], "/verif", check=False)
 st = sh(["git", "status", "--short"], "/verif").stdout
